@@ -53,7 +53,7 @@ type Client struct {
 	sess *wamp.Session
 
 	responseTimeout time.Duration
-	awaitingReply   map[wamp.ID]chan wamp.Message
+	awaitingReply   map[wamp.ID]*replyWait
 
 	eventHandlers map[wamp.ID]EventHandler
 	topicSubID    map[string]wamp.ID
@@ -248,7 +248,7 @@ func NewClient(p wamp.Peer, cfg Config) (*Client, error) {
 		sess: sess,
 
 		responseTimeout: cfg.ResponseTimeout,
-		awaitingReply:   map[wamp.ID]chan wamp.Message{},
+		awaitingReply:   map[wamp.ID]*replyWait{},
 
 		eventHandlers: map[wamp.ID]EventHandler{},
 		topicSubID:    map[string]wamp.ID{},
@@ -1287,11 +1287,33 @@ func unexpectedMsgError(msg wamp.Message, expected wamp.MessageType) error {
 	return errors.New(s)
 }
 
+// replyWait is where the run() goroutine hands a reply to the goroutine
+// waiting for it. The waiter closes gone when it stops waiting (reply received,
+// timeout, or cancellation), so that run() is never left blocked handing over
+// a reply that arrives at that very moment: a blocked run() processes no
+// further messages and never terminates, which also hangs Close().
+type replyWait struct {
+	reply chan wamp.Message
+	gone  chan struct{}
+}
+
 func (c *Client) expectReply(id wamp.ID) {
-	wait := make(chan wamp.Message)
+	wait := &replyWait{
+		reply: make(chan wamp.Message),
+		gone:  make(chan struct{}),
+	}
 	c.sess.Lock()
 	c.awaitingReply[id] = wait
 	c.sess.Unlock()
+}
+
+// doneWaiting removes the expectation of a reply and releases run() if it is
+// trying to hand over a reply right now.
+func (c *Client) doneWaiting(id wamp.ID, rw *replyWait) {
+	c.sess.Lock()
+	delete(c.awaitingReply, id)
+	c.sess.Unlock()
+	close(rw.gone)
 }
 
 // waitForReply waits for an expected reply from the router.
@@ -1300,14 +1322,15 @@ func (c *Client) expectReply(id wamp.ID) {
 // run() goroutine may be blocked waiting for a reply to be read from the
 // awaiting reply channel.
 func (c *Client) waitForReply(id wamp.ID) (wamp.Message, error) {
-	var wait chan wamp.Message
+	var rw *replyWait
 	var ok bool
 	c.sess.Lock()
-	wait, ok = c.awaitingReply[id]
+	rw, ok = c.awaitingReply[id]
 	c.sess.Unlock()
 	if !ok {
 		return nil, fmt.Errorf("not expecting reply for ID: %v", id)
 	}
+	wait := rw.reply
 
 	var msg wamp.Message
 	var err error
@@ -1324,9 +1347,7 @@ func (c *Client) waitForReply(id wamp.ID) (wamp.Message, error) {
 	case <-c.Done():
 		err = ErrNotConn
 	}
-	c.sess.Lock()
-	delete(c.awaitingReply, id)
-	c.sess.Unlock()
+	c.doneWaiting(id, rw)
 
 	return msg, err
 }
@@ -1338,14 +1359,15 @@ func (c *Client) waitForReply(id wamp.ID) (wamp.Message, error) {
 // run() goroutine may be blocked waiting for a reply to be read from the
 // awaiting reply channel.
 func (c *Client) waitForReplyWithCancel(ctx context.Context, id wamp.ID, procedure string, progChan chan<- *wamp.Result) (wamp.Message, error) { //nolint:lll
-	var wait chan wamp.Message
+	var rw *replyWait
 	var ok bool
 	c.sess.Lock()
-	wait, ok = c.awaitingReply[id]
+	rw, ok = c.awaitingReply[id]
 	c.sess.Unlock()
 	if !ok {
 		return nil, fmt.Errorf("not expecting reply for ID: %v", id)
 	}
+	wait := rw.reply
 
 	var msg wamp.Message
 	var err error
@@ -1400,9 +1422,7 @@ CollectResults:
 		err = ErrNotConn
 	}
 	// All done with this call, so not waiting for more replies.
-	c.sess.Lock()
-	delete(c.awaitingReply, id)
-	c.sess.Unlock()
+	c.doneWaiting(id, rw)
 
 	return msg, err
 }
@@ -1913,7 +1933,7 @@ func (c *Client) runHandleInterrupt(msg *wamp.Interrupt) {
 }
 
 func (c *Client) runSignalReply(msg wamp.Message, requestID wamp.ID) {
-	var w chan wamp.Message
+	var w *replyWait
 	var ok bool
 	c.sess.Lock()
 	w, ok = c.awaitingReply[requestID]
@@ -1924,7 +1944,10 @@ func (c *Client) runSignalReply(msg wamp.Message, requestID wamp.ID) {
 		return
 	}
 	select {
-	case w <- msg:
+	case w.reply <- msg:
+	case <-w.gone:
+		c.log.Println("Received", msg.MessageType(), requestID,
+			"that client is no longer waiting for")
 	case <-c.Done():
 	}
 }
